@@ -681,7 +681,7 @@ async def ext_task(x, prog, slots):
                 # recorded here: atomic with the registration of the temporary handler inside expect()
                 RT.rec('expectBegin', x=x, b=bi, key=key, h=k, pred=pred, timeout=to, bus=bussnap(b))
                 try:
-                    got = await b.expect(key, include=include, timeout=to)
+                    got = await b.expect(RT.types[key] if (k % 2 == 1 and key != '*') else key, include=include, timeout=to)
                     # recorded here: atomic with the removal of the temporary handler in expect()'s finally
                     RT.expect_cur.pop(x, None)
                     RT.rec('expectEnd', x=x, b=bi, got=eid(got), bus=bussnap(b))
@@ -821,7 +821,8 @@ async def run_sc(sc):
             fn = make_handler(h['bus'], k, h)
         keys = h.get('keys') or [h['key']]
         for key in keys:
-            bus.on(key, fn)
+            # the three pattern kinds: '*' , the type name, or (byclass) the event class itself
+            bus.on(RT.types[key] if h.get('byclass') and key != '*' else key, fn)
         # the id bubus will use for this handler
         RT.hidx[(h['bus'], id(bus.handlers[keys[0]][-1]))] = k
         RT.hfn[(h['bus'], k)] = bus.handlers[keys[0]][-1]
